@@ -567,6 +567,88 @@ class Interp:
             if cond is None or truthy(self.ev(cond, env)):
                 return self.block(blk, env)
         return None
+    def e_match(self, n, env):
+        subjects = [self.ev(x, env) for x in n[1]]
+        for alts, guard, blk in n[2]:
+            if alts is None:
+                return self.block(blk, env)
+            matched = False
+            for alt in alts:
+                if len(alt) != len(subjects):
+                    raise ModelLimit("pattern count")
+                binds = {}
+                if all(self.match_pat(p, v, binds) for p, v in zip(alt, subjects)):
+                    env.update(binds)
+                    matched = True
+                    break
+            if not matched:
+                continue
+            # the guard belongs to the arm: it is evaluated once, after one alternative matched
+            if guard is not None and not truthy(self.ev(guard, env)):
+                continue
+            return self.block(blk, env)
+        return None
+
+    def match_pat(self, p, v, binds):
+        self.tick()
+        k = p[0]
+        if k == "plit":
+            lit = self.ev(p[1], {})
+            return equal(lit, v, self)
+        if k == "var":
+            if len(p) > 2 and p[2] and not self.hint_matches(p[2], v):
+                return False
+            binds[p[1]] = v
+            return True
+        if k == "ignore":
+            if len(p) > 1 and p[1] and not self.hint_matches(p[1], v):
+                return False
+            return True
+        if k == "tpat":
+            pats = p[1]
+            if not pats:
+                raise ModelLimit("`()` pattern (F-A8: matches null instead of the empty tuple)")
+            rest_at = [i for i, x in enumerate(pats) if x[0] == "rest"]
+            if not isinstance(v, (KList, KTuple)):
+                if rest_at:
+                    raise ModelLimit("ellipsis pattern against a non-container (F-A4)")
+                if is_str(v) or isinstance(v, (KMap, KRange)):
+                    raise ModelLimit("tuple pattern against string/map/range (pinned)")
+                return False
+            items = list(v.items)
+            if rest_at:
+                r = rest_at[0]
+                before, after = pats[:r], pats[r + 1:]
+                if len(items) < len(before) + len(after):
+                    return False
+                for q, x in zip(before, items):
+                    if not self.match_pat(q, x, binds): return False
+                for q, x in zip(after, items[len(items) - len(after):]):
+                    if not self.match_pat(q, x, binds): return False
+                mid = items[len(before):len(items) - len(after)]
+                if pats[r][1] is not None:
+                    binds[pats[r][1]] = KTuple(mid) if isinstance(v, KTuple) else KList(mid)
+                return True
+            if len(items) != len(pats):
+                return False
+            for q, x in zip(pats, items):
+                if not self.match_pat(q, x, binds): return False
+            return True
+        if k == "mpat":
+            if not isinstance(v, KMap):
+                if v is None or is_bool(v):
+                    raise ModelLimit("map pattern against null/bool (F-A7)")
+                if not (is_num(v) or is_str(v)):
+                    raise ModelLimit("map pattern against " + type_name(v))
+                return False
+            for key, name in p[1]:
+                if ("s", key) not in v.d:
+                    return False
+            for key, name in p[1]:
+                binds[name] = v.d[("s", key)]
+            return True
+        raise ModelLimit("pattern " + k)
+
     def e_while(self, n, env):
         return self.loop(lambda: truthy(self.ev(n[1], env)), n[2], env)
     def e_until(self, n, env):
@@ -654,6 +736,11 @@ class Interp:
         if hint == "Any": return True
         if isinstance(v, tuple) and v and v[0] == "errstr":
             return hint == "String"
+        if hint.endswith("?"):
+            return v is None or self.hint_matches(hint[:-1], v)
+        if hint == "Indexable": return isinstance(v, (KList, KTuple, KMap)) or is_str(v)
+        if hint == "Iterable": return isinstance(v, (KList, KTuple, KRange, KIter)) or is_str(v) or (isinstance(v, KMap) and v.meta is None)
+        if hint == "Callable": return isinstance(v, (KFn, KNative)) and not (isinstance(v, KFn) and v.is_gen)
         return type_name(v) == hint
 
     # ---- iteration --------------------------------------------------------------------------
